@@ -218,36 +218,7 @@ def run(ctx, report):
             R3.violation('candidate-mode', 'mode:candidate', 'the candidate tuple no longer carries %s as its operand mode: %s' % (prefix_guard, norm(n)[:80]), where(arch, n))
 
     R4 = report.rule('C02.D4', 'grammar actions accumulate register coefficients when they merge two parsed operands', floor=2)
-    import re as _re
-    for mod_, fns in ((att, att.funcs), (pa, pa.funcs)):
-        for name, fn in sorted(fns.items()):
-            if not name.startswith('p_') or not fn.args.args:
-                continue
-            tn = fn.args.args[0].arg
-            alias = None
-            keyvars = {}
-            for st in fn.body:
-                if isinstance(st, ast.Assign) and len(st.targets) == 1:
-                    tg, v = st.targets[0], st.value
-                    if u(tg) == '%s[0]' % tn and isinstance(v, ast.Subscript) and u(v.value) == tn and isinstance(v.slice, ast.Constant):
-                        alias = v.slice.value
-                    elif isinstance(tg, ast.Name):
-                        src = set(int(x) for x in _re.findall(r'\b%s\[(\d+)\]' % tn, u(v)))
-                        if src:
-                            keyvars[tg.id] = src
-                    elif alias is not None and isinstance(tg, ast.Subscript) and u(tg.value) == '%s[0]' % tn and isinstance(tg.slice, ast.Name) and tg.slice.id in keyvars:
-                        k = tg.slice.id
-                        inst = '%s:%s' % (name, norm(st))
-                        if keyvars[k] == {alias}:
-                            R4.ok(inst, sample='%s: key %s comes from the aliased operand itself (overwrites its own coefficient)' % (name, k), nontrivial=False)
-                            continue
-                        vt = u(v).replace(' ', '')
-                        if ('%s[0].get(%s,0)' % (tn, k)) in vt or ('%s[%d].get(%s,0)' % (tn, alias, k)) in vt:
-                            R4.ok(inst, sample='%s: %s' % (name, norm(st)))
-                        else:
-                            R4.violation(inst, 'accumulate:%s:%s' % (name, k), '%s stores the coefficient of a register parsed from %s[%s] into the operand aliased from %s[%d] without '
-                                         'adding the coefficient already there: when both name the same register one of them is lost' % (name, tn, sorted(keyvars[k]), tn, alias),
-                                         where(mod_, st), witness="asm_att('leal (%eax,%eax,2), %ebx') encodes [eax*2]")
+    accumulate_rule(R4, att, pa)
 
     R2 = report.rule('C02.D2', 'range table of check_imm_size and struct formats are the width semantics', floor=10)
     cis = arch.func('check_imm_size')
@@ -348,6 +319,39 @@ def run(ctx, report):
             R2.ok('tab_size2int[%s]' % tok, sample='tab_size2int[%s] = %s' % (tok, want))
         else:
             R2.violation('tab_size2int[%s]' % tok, 'tab_size2int:%s' % tok, 'tab_size2int[%s] is %s, expected %s' % (tok, got, want), where(arch, arch.assigns['tab_size2int'][-1]))
+
+
+def accumulate_rule(R4, att, pa):
+    import re as _re
+    for mod_, fns in ((att, att.funcs), (pa, pa.funcs)):
+        for name, fn in sorted(fns.items()):
+            if not name.startswith('p_') or not fn.args.args:
+                continue
+            tn = fn.args.args[0].arg
+            alias = None
+            keyvars = {}
+            for st in fn.body:
+                if isinstance(st, ast.Assign) and len(st.targets) == 1:
+                    tg, v = st.targets[0], st.value
+                    if u(tg) == '%s[0]' % tn and isinstance(v, ast.Subscript) and u(v.value) == tn and isinstance(v.slice, ast.Constant):
+                        alias = v.slice.value
+                    elif isinstance(tg, ast.Name):
+                        src = set(int(x) for x in _re.findall(r'\b%s\[(\d+)\]' % tn, u(v)))
+                        if src:
+                            keyvars[tg.id] = src
+                    elif alias is not None and isinstance(tg, ast.Subscript) and u(tg.value) == '%s[0]' % tn and isinstance(tg.slice, ast.Name) and tg.slice.id in keyvars:
+                        k = tg.slice.id
+                        inst = '%s:%s' % (name, norm(st))
+                        if keyvars[k] == {alias}:
+                            R4.ok(inst, sample='%s: key %s comes from the aliased operand itself (overwrites its own coefficient)' % (name, k), nontrivial=False)
+                            continue
+                        vt = u(v).replace(' ', '')
+                        if ('%s[0].get(%s,0)' % (tn, k)) in vt or ('%s[%d].get(%s,0)' % (tn, alias, k)) in vt:
+                            R4.ok(inst, sample='%s: %s' % (name, norm(st)))
+                        else:
+                            R4.violation(inst, 'accumulate:%s:%s' % (name, k), '%s stores the coefficient of a register parsed from %s[%s] into the operand aliased from %s[%d] without '
+                                         'adding the coefficient already there: when both name the same register one of them is lost' % (name, tn, sorted(keyvars[k]), tn, alias),
+                                         where(mod_, st), witness="asm_att('leal (%eax,%eax,2), %ebx') encodes [eax*2]")
 
 
 def _conds(node, fn):
